@@ -495,6 +495,7 @@ func cmdCheck(args []string) {
 			engines[""] = eng
 		}
 		nr, okr := 0, 0
+		staleRing := map[string]bool{}
 		for _, f := range pc.RingFuncs {
 			var obs []ringObl
 			var err error
@@ -533,6 +534,15 @@ func cmdCheck(args []string) {
 				}
 				fails := runReplay(f, 400)
 				rec := map[string]interface{}{"property": id, "obligation": o.Name, "position": o.Pos, "verifier_output": o.Msg, "replay_failures": fails}
+				if strings.HasPrefix(o.Msg, "not in the straight-line subset") && len(fails) == 0 {
+					// the body was restructured beyond the ring/exponent subset: the contract does not bind; the bounded replay decided
+					nr--
+					if !staleRing[f] {
+						staleRing[f] = true
+						lines = append(lines, fmt.Sprintf("STALE-CONTRACT: %s (ring/exponent contract): %s; bounded replay of the function found no failing input", f, o.Msg))
+					}
+					continue
+				}
 				p := writeReplay(rec)
 				if len(fails) > 0 {
 					lines = append(lines, fmt.Sprintf("VIOLATION property=%s replay=%s obligation=%s input: %s", id, p, o.Name, truncate(fails[0], 300)))
